@@ -64,6 +64,7 @@ type preparedBatch struct {
 	signal string
 	bar    *colarspb.BatchArrowRecords
 	want   []string
+	keys   []string // Input.Keys of the encoded batch
 	items  int
 }
 
@@ -77,16 +78,20 @@ func prepare(fc *FaultCase) ([][]preparedBatch, error) {
 			return nil, err
 		}
 		var pbs []preparedBatch
-		for _, b := range res.Batches {
+		for bi, b := range res.Batches {
 			if b.BAR == nil {
 				break // producer refused / panicked: C08's business; the segment ends here
+			}
+			var keys []string
+			if in, err := seg.Batches[bi].Decode(); err == nil {
+				keys = in.Keys()
 			}
 			if k > 0 {
 				for _, pl := range b.BAR.ArrowPayloads {
 					pl.SchemaId = fmt.Sprintf("p%d-%s", k+1, pl.SchemaId)
 				}
 			}
-			pbs = append(pbs, preparedBatch{signal: b.Signal, bar: b.BAR, want: b.Want, items: b.Items})
+			pbs = append(pbs, preparedBatch{signal: b.Signal, bar: b.BAR, want: b.Want, keys: keys, items: b.Items})
 		}
 		out = append(out, pbs)
 	}
@@ -99,6 +104,14 @@ func prepare(fc *FaultCase) ([][]preparedBatch, error) {
 // copies of the main record the batch holds (duplication faults), and whether
 // every fault was applicable.
 func applyFaults(bar *colarspb.BatchArrowRecords, faults []Fault, retired []string) (*colarspb.BatchArrowRecords, bool, int, bool, bool) {
+	b, mainTouched, mainCopies, mustNotSucceed, _, ok := applyFaultsX(bar, faults, retired)
+	return b, mainTouched, mainCopies, mustNotSucceed, ok
+}
+
+// applyFaultsX additionally reports whether the main record is IMPERSONATED:
+// it is in the batch with intact bytes and schema id under another label
+// while a payload that is not a main record carries the main label.
+func applyFaultsX(bar *colarspb.BatchArrowRecords, faults []Fault, retired []string) (*colarspb.BatchArrowRecords, bool, int, bool, bool, bool) {
 	b := proto.Clone(bar).(*colarspb.BatchArrowRecords)
 	// role of every payload currently in the batch: the main record, an
 	// intact copy of it (duplication faults), or another payload
@@ -136,13 +149,13 @@ func applyFaults(bar *colarspb.BatchArrowRecords, faults []Fault, retired []stri
 	for _, f := range faults {
 		n := len(b.ArrowPayloads)
 		if f.I < 0 || f.I >= n {
-			return nil, false, 0, false, false
+			return nil, false, 0, false, false, false
 		}
 		pl := b.ArrowPayloads[f.I]
 		switch f.Kind {
 		case "relabel":
 			if colarspb.ArrowPayloadType(f.Type) == pl.Type {
-				return nil, false, 0, false, false
+				return nil, false, 0, false, false, false
 			}
 			pl.Type = colarspb.ArrowPayloadType(f.Type)
 			if colarspb.ArrowPayloadType(f.Type) == mainType {
@@ -164,7 +177,7 @@ func applyFaults(bar *colarspb.BatchArrowRecords, faults []Fault, retired []stri
 			// a copy of payload i, relabelled, appended: the two faults
 			// "duplicated" and "relabelled" on one payload
 			if colarspb.ArrowPayloadType(f.Type) == pl.Type {
-				return nil, false, 0, false, false
+				return nil, false, 0, false, false, false
 			}
 			cl := proto.Clone(pl).(*colarspb.ArrowPayload)
 			cl.Type = colarspb.ArrowPayloadType(f.Type)
@@ -185,7 +198,7 @@ func applyFaults(bar *colarspb.BatchArrowRecords, faults []Fault, retired []stri
 			roles = append(roles[:f.I+1:f.I+1], rrest...)
 		case "swap":
 			if f.J < 0 || f.J >= n || f.J == f.I {
-				return nil, false, 0, false, false
+				return nil, false, 0, false, false, false
 			}
 			b.ArrowPayloads[f.I], b.ArrowPayloads[f.J] = b.ArrowPayloads[f.J], b.ArrowPayloads[f.I]
 			roles[f.I], roles[f.J] = roles[f.J], roles[f.I]
@@ -197,12 +210,12 @@ func applyFaults(bar *colarspb.BatchArrowRecords, faults []Fault, retired []stri
 			damage(f.I)
 		case "stale_id":
 			if len(retired) == 0 {
-				return nil, false, 0, false, false
+				return nil, false, 0, false, false, false
 			}
 			pl.SchemaId = retired[f.J%len(retired)]
 			damage(f.I)
 		default:
-			return nil, false, 0, false, false
+			return nil, false, 0, false, false, false
 		}
 	}
 	mainCopies, relabelled, labelledMain := 0, 0, 0
@@ -224,7 +237,24 @@ func applyFaults(bar *colarspb.BatchArrowRecords, faults []Fault, retired []stri
 	// main label: whatever the consumer makes of the other payloads, "success"
 	// would discard a main record that was present.
 	mustNotSucceed := mainCopies == 0 && relabelled > 0 && labelledMain == 0
-	return b, mainTouched, mainCopies, mustNotSucceed, true
+	impersonated := mainCopies == 0 && relabelled > 0 && labelledMain > 0
+	return b, mainTouched, mainCopies, mustNotSucceed, impersonated, true
+}
+
+// containsAll reports whether the sorted multiset got contains the sorted
+// multiset want.
+func containsAll(got, want []string) bool {
+	i := 0
+	for _, w := range want {
+		for i < len(got) && got[i] < w {
+			i++
+		}
+		if i >= len(got) || got[i] != w {
+			return false
+		}
+		i++
+	}
+	return true
 }
 
 type sessionStats struct {
@@ -265,10 +295,10 @@ outer:
 		for j, pb := range seg {
 			last := j == len(seg)-1
 			if last && k < len(faults) && len(faults[k]) > 0 {
-				fb, mainTouched, mainCopies, mustNotSucceed, ok := applyFaults(pb.bar, faults[k], retired)
+				fb, mainTouched, mainCopies, mustNotSucceed, impersonated, ok := applyFaultsX(pb.bar, faults[k], retired)
 				if !ok {
 					// inapplicable fault list: treat the batch as unaltered
-					fb, mainTouched, mainCopies, mustNotSucceed = proto.Clone(pb.bar).(*colarspb.BatchArrowRecords), false, 1, false
+					fb, mainTouched, mainCopies, mustNotSucceed, impersonated = proto.Clone(pb.bar).(*colarspb.BatchArrowRecords), false, 1, false, false
 					faults[k] = nil
 				}
 				if len(faults[k]) > 0 {
@@ -284,6 +314,9 @@ outer:
 						break outer
 					case d.Err == nil && mustNotSucceed:
 						msg = fmt.Sprintf("segment %d batch %d (%s) damaged by %v: consumer returned success (%d items) although the batch held its main record of %d items under another label and no payload with the main label (a main record that was present was discarded)", k, j, pb.signal, faults[k], d.Items, pb.items)
+						break outer
+					case d.Err == nil && impersonated && !containsAll(d.Keys, pb.keys):
+						msg = fmt.Sprintf("segment %d batch %d (%s) damaged by %v: consumer returned success (%d items) although the batch held its main record of %d items, bytes intact, under another label while another payload wore the main label - and the items of the main record are not in the result (a main record that was present was discarded)", k, j, pb.signal, faults[k], d.Items, pb.items)
 						break outer
 					case d.Err == nil && !mainTouched && d.Items != pb.items*mainCopies:
 						msg = fmt.Sprintf("segment %d batch %d (%s) damaged by %v: consumer returned success with %d items although the batch held %d intact main record(s) of %d items each (a main record that was present was discarded)", k, j, pb.signal, faults[k], d.Items, mainCopies, pb.items)
